@@ -263,6 +263,30 @@ Section StepProofs.
     - intros [= <-]. apply run_le_refl.
   Qed.
 
+  (* what a local step announces about an existing run is the run as process left it, never behind where it stood *)
+  Lemma run_event_current (e : E) (r x : run) (k : kind) :
+    In (x, k) (run_event e r) -> process r e = Ok (x, true) /\ k = kind_of x /\ run_le r x.
+  Proof.
+    unfold run_event. destruct (process r e) as [[r1 c]|kk] eqn:Ep; [|intros []].
+    destruct c; [|intros []]. intros [[= <- <-]|[]].
+    split; [reflexivity|split; [reflexivity|]]. eapply outcome_run_le, process_outcome; eauto.
+  Qed.
+
+  Lemma sel_run_event_current (e : E) (k : kind) (l : list run) (x : run) :
+    In x (sel k (flat_map (run_event e) l)) ->
+    exists r, In r l /\ process r e = Ok (x, true) /\ k = kind_of x /\ run_le r x /\
+              (s_idx (ser x) >= r_idx r)%nat /\ s_id (ser x) = r_id r.
+  Proof.
+    unfold sel. rewrite in_flat_map. intros [[y ky] [Hin Hsel]].
+    apply in_flat_map in Hin. destruct Hin as [r [Hr Hy]].
+    destruct (run_event_current e r y ky Hy) as [Hp [Hk Hle]].
+    simpl in Hsel. assert (x = y /\ ky = k) as [-> <-].
+    { destruct ky, k; simpl in Hsel; try contradiction; destruct Hsel as [<-|[]]; auto. }
+    exists r. split; [exact Hr|]. split; [exact Hp|]. split; [exact Hk|]. split; [exact Hle|].
+    destruct Hle as (Hid & _ & _ & Hpos). unfold ser; simpl. split; [|exact Hid].
+    destruct Hpos as [H|[H _]]; lia.
+  Qed.
+
   Lemma nodup_id_eq (l : list run) (a b : run) :
     NoDup (map (@r_id E) l) -> In a l -> In b l -> r_id a = r_id b -> a = b.
   Proof.
